@@ -5,7 +5,7 @@ the driver binary); any edit to /repo gives a new key, so nothing stale is ever 
 """
 import fcntl
 import hashlib
-import os
+import os, re
 import shutil
 import subprocess
 import sys
@@ -80,10 +80,18 @@ def tree_hash(repo=REPO):
 def ensure(config='default', repo=REPO):
     """Return the directory holding fresh fact files for `repo` under `config`."""
     os.makedirs(BUILD, exist_ok=True)
-    lock = open(os.path.join(BUILD, '.lock'), 'w')
-    fcntl.flock(lock, fcntl.LOCK_EX)
+    # ACB_FACTS_SLOT=<n>: development aid for analysing several scratch trees at once — one cargo target directory (and lock) per slot
+    slot = re.sub(r'[^0-9A-Za-z]', '', os.environ.get('ACB_FACTS_SLOT', ''))
+    glock = open(os.path.join(BUILD, '.lock'), 'w')
+    fcntl.flock(glock, fcntl.LOCK_EX)
     try:
         build_driver()
+    finally:
+        fcntl.flock(glock, fcntl.LOCK_UN)
+        glock.close()
+    lock = open(os.path.join(BUILD, '.lock' + slot), 'w')
+    fcntl.flock(lock, fcntl.LOCK_EX)
+    try:
         key = tree_hash(repo)
         tag = hashlib.sha256(os.path.abspath(repo).encode()).hexdigest()[:6]
         out = os.path.join(BUILD, 'facts', '%s-%s-%s' % (config, tag, key))
@@ -93,11 +101,12 @@ def ensure(config='default', repo=REPO):
             except OSError:
                 pass
             return out
+        final = out
+        out = '%s.tmp-%d' % (final, os.getpid())
         if os.path.exists(out):
             shutil.rmtree(out)
         os.makedirs(out)
-        # one target dir per analysed tree location so scratch copies do not evict /repo's deps
-        tgt = os.path.join(BUILD, 'target')
+        tgt = os.path.join(BUILD, 'target' + ('-' + slot if slot else ''))
         # cargo replays cached diagnostics and skips the wrapper when a member is fresh: clear the
         # members' fingerprints so that the driver really runs.
         for prof in ('debug',):
@@ -136,6 +145,14 @@ def ensure(config='default', repo=REPO):
             raise RuntimeError('driver produced no facts for crates %s (cargo skipped the wrapper?)' % missing)
         with open(os.path.join(out, '.ok'), 'w') as f:
             f.write('%s %.1f\n' % (config, time.time() - t0))
+        # publish atomically (another slot may have produced the same facts meanwhile)
+        if os.path.exists(os.path.join(final, '.ok')):
+            shutil.rmtree(out, ignore_errors=True)
+        else:
+            if os.path.exists(final):
+                shutil.rmtree(final, ignore_errors=True)
+            os.rename(out, final)
+        out = final
         log('facts ready in %.1fs: %s' % (time.time() - t0, out))
         _prune(os.path.join(BUILD, 'facts'), keep=out)
         return out
@@ -186,8 +203,11 @@ def ensure_fixture():
 
 
 def _prune(root, keep, max_dirs=32):
-    ds = [os.path.join(root, d) for d in os.listdir(root)]
-    ds = [d for d in ds if os.path.isdir(d) and d != keep]
+    # the facts of the repository under verification are not evicted by scratch analyses (development aids run many of those)
+    own = '-%s-' % hashlib.sha256(os.path.abspath(REPO).encode()).hexdigest()[:6]
+    mine = sorted([d for d in os.listdir(root) if own in d], key=lambda d: os.path.getmtime(os.path.join(root, d)))[-6:]
+    ds = [os.path.join(root, d) for d in os.listdir(root) if d not in mine]
+    ds = [d for d in ds if os.path.isdir(d) and d != keep and not ('.tmp-' in d and time.time() - os.path.getmtime(d) < 3600)]
     ds.sort(key=os.path.getmtime)
     while len(ds) > max_dirs - 1:
         shutil.rmtree(ds.pop(0), ignore_errors=True)
